@@ -120,8 +120,16 @@ def scenario(mode, selected, cut, ending):
         if not selected and mode == "active":
             recv_frames(sock, 1, 1.0)     # swallow the Select.req
         stream = H.frame(0, 0x0101, 1, 1, True, b"") + H.frame(0, 0x0102, 1, 13, True, b"\x01\x00") + H.frame(5, 0x0103, session=0xFFFF)
-        sock.sendall(stream[:cut])
-        time.sleep(0.15)
+        if ending == "burst-then-close":
+            # many requests in ONE segment, then the peer closes at once: the dispatcher still has queued messages to answer when
+            # the link goes down - the endpoint must finish its disconnect handling and serve the next connection (D42)
+            burst = b"".join(H.frame(5, 0x2000 + k, session=0xFFFF) for k in range(70)) + H.frame(0, 0x2100, 1, 1, True, b"") * 5
+            sock.sendall(stream[:cut] if cut in (0, 14) else b"")
+            sock.sendall(burst)
+            ending = "peer-close"
+        else:
+            sock.sendall(stream[:cut])
+            time.sleep(0.15)
         if ending == "peer-close":
             sock.close()
             if not H.wait_until(lambda: ep.state() == "NOT_CONNECTED", 4.0):
@@ -243,6 +251,8 @@ def bnd_cuts(tier, seed):
                     jobs.append((mode, selected, cut, ending))
                 if mode == "passive" and (tier == "thorough" or cut in (0, 14)):
                     jobs.append((mode, selected, cut, "reconnect-during-slow-disconnect-handler"))
+                if cut in (0, 14):
+                    jobs.append((mode, selected, cut, "burst-then-close"))
     n_eval = 0
     distinct = set()
     suspects = []
